@@ -121,6 +121,7 @@ void World::opIO(const Step &s)
     for (unsigned i = 0; i < nroots; i++) roots.push_back(edges[pick(ce, uint32_t(R.below(ce.size())))]);   // repeats allowed
     const unsigned transport = s.a[2] % 2;
     desc << "write " << nroots << " roots of " << fn(fi) << " via " << (transport ? "FILE*" : "iostream") << ", read back target " << s.a[3] % 3;
+    if (tracing) { fprintf(stderr, "   doing: %s\n", desc.str().c_str()); fflush(stderr); }
     std::string disk;
     long shorts = 0;
     try {
@@ -311,6 +312,7 @@ void World::opMisuse(const Step &s)
     cur_family = "misuse";
     const unsigned which = s.a[0] % 8;
     desc << "misuse case " << which;
+    if (tracing) { fprintf(stderr, "   doing: %s\n", desc.str().c_str()); fflush(stderr); }
     Rng R(s.seed);
     auto liveEdge = [&](const std::function<bool(const ForRT&)> &pred, uint32_t raw) -> EdgeSlot* {
         std::vector<size_t> c = edgesWhere([&](const EdgeSlot &e) {
@@ -520,6 +522,7 @@ void World::opKillForest(const Step &s)
     // iterators on it must not be advanced any more
     for (IterSlot* I : iters) if (I->forest == fi) { I->forest = -1; }
     desc << "destroy " << fn(fi);
+    if (tracing) { fprintf(stderr, "   doing: %s\n", desc.str().c_str()); fflush(stderr); }
     destroyForest(fi);
     stats.fired["forest_destroyed"]++;
     note(OC_OK);
@@ -533,6 +536,7 @@ void World::opKillDomain(const Step &s)
     if (c.size() < 1) { note(OC_SKIP); return; }
     int di = c[s.a[0] % c.size()];
     desc << "destroy domain " << di;
+    if (tracing) { fprintf(stderr, "   doing: %s\n", desc.str().c_str()); fflush(stderr); }
     for (IterSlot* I : iters) if (I->forest >= 0 && forests[I->forest].spec.dom == di) I->forest = -1;
     destroyDomain(di);
     stats.fired["domain_destroyed"]++;
@@ -549,6 +553,7 @@ void World::opNewForest(const Step &s)
     if (c.empty()) { note(OC_SKIP); return; }
     createForest(c[s.a[0] % c.size()]);
     desc << "re-create " << fn(c[s.a[0] % c.size()]);
+    if (tracing) { fprintf(stderr, "   doing: %s\n", desc.str().c_str()); fflush(stderr); }
     stats.fired["forest_recreated"]++;
     note(OC_OK);
 }
@@ -557,6 +562,7 @@ void World::opRestart(const Step &s)
 {
     cur_family = "lifecycle";
     desc << "cleanup() and initialize() again";
+    if (tracing) { fprintf(stderr, "   doing: %s\n", desc.str().c_str()); fflush(stderr); }
     // cleanup() with everything alive; edges become inert
     for (IterSlot* I : iters) { delete I->it; delete I->mask; delete I->root; delete I; }
     iters.clear();
